@@ -340,7 +340,8 @@ def build(tier, mutate=None, seed=0):
         leaves, fields_ = leaf_paths(C, cls, clsname, nseq)
         if direct:
             variants += [(None, 1, None, nseq, k, 0) for k in ((0, 2, 3) if tier != "thorough" else (0, 2, 3, 6))]
-        longs = [(p, s) for p in leaves for s in sizes_all]
+        # top-level fields get every boundary size, fields inside nested messages / list elements the three that matter most
+        longs = [(p, s) for p in leaves for s in (sizes_all if p.count(".") <= 2 and "[" not in p else (255, 256, 511))]
         if tier == "canary":
             longs, unsets = longs[:2], fields_[:1]
         elif tier == "quick":
